@@ -22,11 +22,22 @@ def build(req):
         good = 1.0 if nel_even else 2.0
         bad = 2.0 if nel_even else 1.0
         mult = torch.full_like(mult, good if req["mult_ok"] else bad)
-    if not req["sorted"]:
+    if req["sorted"] == "reversed":
         n0 = int((sp[0] > 0).sum())
         perm = list(range(n0))[::-1] + list(range(n0, sp.shape[1]))
         sp[0] = sp[0][perm]
         xyz[0] = xyz[0][perm]
+    elif req["sorted"] in ("pad_front", "pad_middle"):
+        # one more column of zero padding, placed in front of / between the atoms of row 0
+        sp = torch.cat([sp, torch.zeros(sp.shape[0], 1, dtype=sp.dtype)], dim=1)
+        xyz = torch.cat([xyz, torch.zeros(xyz.shape[0], 1, 3, dtype=xyz.dtype)], dim=1)
+        n = sp.shape[1]
+        n0 = int((sp[0] > 0).sum())
+        order = list(range(n))
+        pad = order.pop(n0)          # index of the first padding slot of row 0
+        order.insert(0 if req["sorted"] == "pad_front" else 1, pad)
+        sp[0] = sp[0][order]
+        xyz[0] = xyz[0][order]
     conv = {0: [0, 0.3], 1: [1], 2: [2]}[req["conv"]]
     p = mdlib.seqm_params(scf_converger=conv, sp2=[bool(req["sp2"]), 1e-5], scf_eps=1e-7)
     if req["uhf"]:
